@@ -38,8 +38,9 @@ TRUSTED = [
     "translator harness/tables_C10.py for CoreEmitter.RUNTIME_FILES",
     "CPython audit events (open/os.mkdir/os.remove/os.rename/os.rmdir/shutil.rmtree) see every file-system "
     "mutation made by the generator process; ruff (post-processing) runs as a child process and is observed only "
-    "through the snapshots (opaque: rewrites the listed files in place and keeps a .ruff_cache in the cwd)",
-    "package components contain no '/' and no whitespace; the temporary directory is outside the project root",
+    "through the snapshots (opaque: rewrites the listed files in place; run with --no-cache)",
+    "package names are ASCII (the model's identifier test is ASCII, str.isidentifier is not); the temporary "
+    "directory and the emitters' error logs in the system temp directory are outside the project root",
 ]
 
 
@@ -229,6 +230,8 @@ def _gen(spec_path: Path, root: Path, out_pkg: str, core_pkg: str | None, force:
         msg = str(e)
         if "injected I/O failure" in msg:
             return "fail:IO"
+        if isinstance(e, ValueError) and msg.startswith("Invalid package name"):
+            return "invalid"
         if type(e).__name__ == "GenerationError" and "Differences found" in msg:
             return "diff"
         return f"error:{type(e).__name__}: {msg[:200]}"
@@ -467,7 +470,7 @@ def oracle(case_obs: dict) -> list[str]:
                 "different", "coredifferent"):
             fails.append("existing output differs from what would be generated but generation did not raise")
         if case["fail_at"] is None or (case["fail_at"].startswith("IO:") and o["outcome"] != "fail:IO"):
-            if case["existing"] in ("different", "coredifferent") and o["outcome"] != "diff":
+            if case["existing"] in ("different", "coredifferent") and o["outcome"] not in ("diff", "invalid"):
                 fails.append("existing output differs from what would be generated but generation did not raise")
             if case["existing"] == "equal" and case["core"] is None and not case["post"] and o["outcome"] != "ok":
                 fails.append("existing output matches what would be generated but generation raised")
@@ -519,6 +522,8 @@ def c_case(case_obs: dict) -> str:
         n, st = "0", "None"
     elif oc == "diff":
         n, st = "1", "None"
+    elif oc == "invalid":
+        n, st = "4", "None"
     elif oc == "fail:IO":
         n, st = "3", f"(Some {o['io_stage'] if o.get('io_stage') in COQ_STAGES else 'Other'})"
     elif oc.startswith("fail:"):
@@ -664,10 +669,10 @@ def main(chk, replay: dict | None = None) -> int:
     # mid-stage failures are not replayed on the model (its theorems cover every prefix of the operation plan);
     # with well-formed packages and no post-processing any oracle failure there is a violation
     chk.decide(midway, None, {}, "oracle only")
-    chk.decide(inner, codes_io, {1: "F10a", 2: "F10b", 3: "F10c"},
+    chk.decide(inner, codes_io, {},
                "Corr.C10.run_io: generate_io(model) = outcome, audit events and created/deleted paths when the OS refuses "
                "the first creation of a chosen file or directory inside a stage")
-    chk.decide(cases, codes, {1: "F10a", 2: "F10b"},
+    chk.decide(cases, codes, {},
                "Corr.C10.run: generate(model) = outcome, audit events per stage (write/remove/rmtree under the project "
                "root and the temporary directory) and created/deleted paths of the sandbox project root")
     return chk.finish(TRUSTED,
